@@ -97,8 +97,12 @@ func vhSigAllSwap(kind nut10.SecretKind) {
 	// melting a SIG_ALL input is refused
 	q := storage.MeltQuote{Id: "mq1", InvoiceRequest: "lnbc-mq1", PaymentHash: "ph-mq1", Amount: 1, FeeReserve: 0, State: nut05.Unpaid, Expiry: 1}
 	v.Assume(env.db.SaveMeltQuote(q) == nil)
+	raw := env.db.VhRaw()
+	s0 := v.SqlSnapshot(raw)
 	_, merr := m.MeltTokens(context.Background(), nut05.PostMeltBolt11Request{Quote: "mq1", Inputs: proofs})
+	s1 := v.SqlSnapshot(raw)
 	v.Assert(v.And(merr != nil, len(env.ln.Pays) == 0), "C12 inputs carrying SIG_ALL cannot be melted, wherever the flagged input sits")
+	v.Assert(v.SqlSame(raw, s0, s1), "C06 the refused melt of SIG_ALL inputs changes nothing (inputs not locked, quote still UNPAID)")
 
 	_, err = m.Swap(proofs, outs)
 	switch mode {
